@@ -7,7 +7,7 @@ from . import instr_gen as ig
 
 RULE = ("(a) a clean chart (every body line parsable) and the same chart with 1-6 unparsable lines (garbage, lines of foreign sections, unsupported indices S 0/1/64, N 8, blank lines, "
         "non-ASCII; repeated texts included) inserted at random positions of [SyncTrack], [Events] and up to two instrument sections: the parse must equal the clean parse and the "
-        "chartparse.track log must report exactly the inserted lines, once each, in routing order; (b) parse_data_from_chart_lines called directly with every permutation of the three kinds "
+        "chartparse.track log must report exactly the inserted lines, once each, in routing order; in a third of these charts a quarter of the line ends are other str.splitlines() boundaries (VT, FF, FS, GS, RS, NEL, LS, PS, lone CR, CRLF); (b) parse_data_from_chart_lines called directly with every permutation of the three kinds "
         "of each section on sections containing unparsable lines: per-kind data and warnings must equal those of the reference configuration in canonical order (conservation, order "
         "independence). Non-trivial: >= 1 inserted line after a parsed line, or a non-canonical kind order; distinct by input")
 ASSUMPTIONS = ["inserted lines are unparsable for the section they are inserted into (checked against the reference recognisers by the generator's construction and by the model)"]
@@ -21,6 +21,9 @@ JUNK = {
     "events": ["\t{", "  }", "garbage", "0 = N 0 0", "0 = B 120000", "0 = TS 4", '0 = E "a"b"', "0 = E solo", "0 = E \"", "", "  ", "歌 = E \"x\"", "0 = S 2 0"],
     "instr": ["  {", "{ ", "\t{", "  }", "} ", "garbage", "0 = N 8 0", "10 = S 64 5", "10 = S 0 5", "10 = S 1 5", "0 = B 120000", "0 = TS 4", '0 = E "section x"', "5 = E two words", "", "  ", "0 = N 0", "歌", "0 = A 5"],
 }
+
+
+OTHER_BREAKS = ["\x0b", "\x0c", "\x1c", "\x1d", "\x1e", "\x85", "\u2028", "\u2029", "\r", "\r\n"]
 
 
 def insert(rng, lines, junk):
@@ -61,6 +64,11 @@ def chart_case(rng):
         tr2.append((h, nb))
         js_tr.append((h, nb, js))
     text = chart_text(res=R, sync=sync2, events=ev2, tracks=tr2)
+    if rng.random() < 0.3:
+        # the other line boundaries of str.splitlines() (VT, FF, FS, GS, RS, NEL, LS, PS, a lone CR, CRLF) between lines: still one
+        # line each, each unparsable line still reported once
+        parts = text.split("\n")
+        text = "".join(p + (rng.choice(OTHER_BREAKS) if i + 1 < len(parts) and rng.random() < 0.25 else "\n" if i + 1 < len(parts) else "") for i, p in enumerate(parts))
     ch, exc, out = parse_case(text)
     # expected warnings in routing order = junk lines in the file order of each section (with the indent the file has)
     def in_order(lines, js):
